@@ -455,18 +455,6 @@ func ParallelProp[C any](r *Rec, test string, gen func(*rapid.T) C, check func(C
 		if rounds < 1 {
 			rounds = 1
 		}
-		// each case must hold on its own first (otherwise the failure is not about concurrency)
-		for i, c := range p.Cases {
-			oo := &Obs{}
-			if err := run(check, c, oo); err != nil {
-				o.Key = oo.Key
-				return fmt.Errorf("case %d fails on its own: %v", i, err)
-			}
-			if oo.Skip {
-				o.Skip = true
-				return nil
-			}
-		}
 		errs := make([]error, len(p.Cases))
 		keys := make([]string, len(p.Cases))
 		start := make(chan struct{})
@@ -488,8 +476,15 @@ func ParallelProp[C any](r *Rec, test string, gen func(*rapid.T) C, check func(C
 		wg.Wait()
 		for i, e := range errs {
 			if e != nil {
+				// Does it also fail on its own?  (The concurrent run comes first on purpose: first-use
+				// effects such as lazily filled caches must be reached concurrently.)
+				oo := &Obs{}
+				if err := run(check, p.Cases[i], oo); err != nil {
+					o.Key = oo.Key
+					return fmt.Errorf("case %d fails (also when run on its own afterwards): %v", i, e)
+				}
 				o.Key = "concurrent/" + keys[i]
-				return fmt.Errorf("case %d of %d holds when run alone but fails while the others run at the same time in other goroutines: %v", i, len(p.Cases), e)
+				return fmt.Errorf("case %d of %d holds when run alone but failed while the others ran at the same time in other goroutines: %v", i, len(p.Cases), e)
 			}
 		}
 		o.NonTrivial = len(p.Cases) >= 2
